@@ -250,12 +250,14 @@ pub fn cmp_err(a: &AltR, d: &ErrDesc, sm: &SpanMap, strict: bool) -> Result<(), 
             }
         }
     } else {
-        if let (Some(Some(f)), Some(df)) = (a.found.as_ref().map(|f| f.as_ref()), d.found.as_ref()) {
+        if a.found_fuzzy {
+            // nothing is specified about `found` here
+        } else if let (Some(Some(f)), Some(df)) = (a.found.as_ref().map(|f| f.as_ref()), d.found.as_ref()) {
             if df.as_ref() != Some(f) {
                 return Err(format!("found {:?} but the token at the failure is {:?}", df, f));
             }
         }
-        if let (Some(None), Some(df)) = (a.found.as_ref(), d.found.as_ref()) {
+        if let (Some(None), Some(df), false) = (a.found.as_ref(), d.found.as_ref(), a.found_fuzzy) {
             if df.is_some() {
                 return Err(format!("found {:?} but the failure is at the end of input", df));
             }
